@@ -50,12 +50,17 @@ def run(tier: str, seed: int) -> int:
         nframes = 3 if quick else 30
         for kind in geom.KINDS:
             cat = cats[catname[kind]]
-            for f in range(nframes):
+            for f in range(nframes + 2):
                 n = rng.choice([3, 5, 8, 12])
                 exact = f % 3 != 2
                 els = [rng.choice(cat) for _ in range(n)]
                 if exact:
                     els = [corner(kind, 0, 0)] + els + [corner(kind, 8, 8)]
+                if f >= nframes:
+                    # degenerate extents: every geometry on one horizontal (f = nframes) or vertical line - the zero extent is widened by 1
+                    exact = True
+                    line_xy = [0, 2, 4, 7, 8, 3, 5]
+                    els = [corner(kind, v, 3) if f == nframes else corner(kind, 5, v) for v in line_xy]
                 other = geom.make_array("point", [geom.El([[[[100 - i, 50 + (i * 7) % 5]]]]) for i in range(len(els))])
                 # every third exact frame in float32 on a half-grid at 2^22: coordinates exact, but lo + hi of a bounding box is not
                 # representable in float32 (the centre cell must come out of double-precision arithmetic)
